@@ -269,7 +269,7 @@ def s04b_full_window_scans(ctx):
         short = m.short(i)
         if short not in want:
             continue
-        b = m.body(m.impl_fn_path(i, 'next'))
+        b = m.body_inlined(m.impl_fn_path(i, 'next'))
         if b is None:
             raise Broken('no body for %s::next' % short)
         n += 1
@@ -322,7 +322,7 @@ def s04c_eviction_test(ctx):
         short = m.short(i)
         if short not in want:
             continue
-        b = m.body(m.impl_fn_path(i, 'next'))
+        b = m.body_inlined(m.impl_fn_path(i, 'next'))
         if b is None:
             raise Broken('no body for %s::next' % short)
         pfs = [pf for pf in all_path_facts(b) if pf.returns]
